@@ -180,3 +180,64 @@ func ruleGuardedBy(w *World, r *Report, rule string, exceptions map[string]strin
 	}
 	return n
 }
+
+// ATOMIC-CONSISTENT: a field whose address is handed to a sync/atomic function somewhere is only ever accessed
+// through sync/atomic (outside constructors working on a fresh object).
+func ruleAtomicConsistent(w *World, r *Report, rule string, pkgs ...string) int {
+	atomicFields := map[*types.Var]bool{}
+	fns := w.RepoFuncs(pkgs...)
+	isAtomicCall := func(in ssa.Instruction) bool {
+		c, ok := in.(ssa.CallInstruction)
+		if !ok {
+			return false
+		}
+		sc := staticCallee(c)
+		return sc != nil && sc.Pkg != nil && sc.Pkg.Pkg.Path() == "sync/atomic"
+	}
+	for _, fn := range fns {
+		instrs(fn, func(in ssa.Instruction) {
+			if !isAtomicCall(in) {
+				return
+			}
+			for _, a := range in.(ssa.CallInstruction).Common().Args {
+				if fa, ok := a.(*ssa.FieldAddr); ok {
+					if f := fieldVarOfAddr(fa); f != nil {
+						atomicFields[f.Origin()] = true
+					}
+				}
+			}
+		})
+	}
+	n := 0
+	for _, fn := range fns {
+		k := 0
+		instrs(fn, func(in ssa.Instruction) {
+			fa, ok := in.(*ssa.FieldAddr)
+			if !ok {
+				return
+			}
+			f := fieldVarOfAddr(fa)
+			if f == nil || !atomicFields[f.Origin()] || freshBase(fa.X, 0) {
+				return
+			}
+			for _, ref := range *fa.Referrers() {
+				if _, isDbg := ref.(*ssa.DebugRef); isDbg {
+					continue
+				}
+				n++
+				k++
+				owner := "?"
+				if o := ownerOfFieldAddr(fa); o != nil {
+					owner = o.Obj().Name()
+				}
+				construct := fmt.Sprintf("%s.%s access #%d in %s", owner, f.Name(), k, w.fname(origin(fn)))
+				if isAtomicCall(ref) {
+					r.OK(rule, construct, ref.Pos(), "through sync/atomic")
+				} else {
+					r.Fail(rule, construct, ref.Pos(), "the field is updated with sync/atomic elsewhere but accessed here with a plain load / store: concurrent updates can be lost (e.g. the count of closed stream copies never reaches the number of copies and the source is never closed)")
+				}
+			}
+		})
+	}
+	return n
+}
